@@ -1,0 +1,54 @@
+//go:build verif
+
+// Verification hooks for property C11 (graceful shutdown). Add-only; compiled
+// only with -tags verif. Nothing here is called from production code.
+
+package forwarder
+
+import (
+	"context"
+	"net"
+	"net/http"
+
+	"github.com/saucelabs/forwarder/internal/martian"
+)
+
+// VerifC11Serve runs the accept loop of the configured proxy on a caller-supplied
+// listener (whose connections may record and gate Read/Write/Close) and returns
+// what martian's Serve returns.
+func (hp *HTTPProxy) VerifC11Serve(l net.Listener) error { return hp.proxy.Serve(l) }
+
+// VerifC11Shutdown calls Shutdown of the underlying proxy.
+func (hp *HTTPProxy) VerifC11Shutdown(ctx context.Context) error { return hp.proxy.Shutdown(ctx) }
+
+// VerifC11Close calls Close of the underlying proxy.
+func (hp *HTTPProxy) VerifC11Close() error { return hp.proxy.Close() }
+
+// VerifC11Counter returns the open-connection counter.
+func (hp *HTTPProxy) VerifC11Counter() int32 { return hp.proxy.VerifC11Counter() }
+
+// VerifC11Closing reports whether the closing signal has been set.
+func (hp *HTTPProxy) VerifC11Closing() bool { return hp.proxy.VerifC11Closing() }
+
+// VerifC11Registered returns the size of the open-connection set (blocks while Shutdown or Close runs).
+func (hp *HTTPProxy) VerifC11Registered() int { return hp.proxy.VerifC11Registered() }
+
+// VerifC11Trace adds observers for the proxy's read-request and wrote-response
+// trace events; hooks installed by middlewareStack keep running. Call it before serving.
+func (hp *HTTPProxy) VerifC11Trace(onRead func(req *http.Request, err error), onWrote func(res *http.Response, err error)) {
+	old := hp.proxy.Trace
+	t := new(martian.ProxyTrace)
+	t.ReadRequest = func(info martian.ReadRequestInfo) {
+		onRead(info.Req, info.Err)
+		if old != nil && old.ReadRequest != nil {
+			old.ReadRequest(info)
+		}
+	}
+	t.WroteResponse = func(info martian.WroteResponseInfo) {
+		onWrote(info.Res, info.Err)
+		if old != nil && old.WroteResponse != nil {
+			old.WroteResponse(info)
+		}
+	}
+	hp.proxy.Trace = t
+}
